@@ -1,4 +1,4 @@
-from typing import Union
+from typing import Optional, Union
 
 from tealer.utils.comparable_enum import ComparableEnum
 
@@ -93,7 +93,7 @@ TYPEENUM_TRANSACTION_TYPES = (
 )
 
 
-def oncompletion_to_tealer_type(value: Union[str, int]) -> "TealerTransactionType":
+def oncompletion_to_tealer_type(value: Union[str, int]) -> Optional["TealerTransactionType"]:
     ENUM_NAMES_TO_INT = {
         "NoOp": 0,
         "OptIn": 1,
@@ -111,13 +111,16 @@ def oncompletion_to_tealer_type(value: Union[str, int]) -> "TealerTransactionTyp
         5: TealerTransactionType.ApplDeleteApplication,
     }
 
+    # the compared value is taken from the contract: it might not be a valid value for the field.
     if not isinstance(value, int):
+        if value not in ENUM_NAMES_TO_INT:
+            return None
         value = ENUM_NAMES_TO_INT[value]
 
-    return INT_TO_TYPE[value]
+    return INT_TO_TYPE.get(value)
 
 
-def transaction_type_to_tealer_type(value: Union[str, int]) -> "TealerTransactionType":
+def transaction_type_to_tealer_type(value: Union[str, int]) -> Optional["TealerTransactionType"]:
     ENUM_NAMES_TO_INT = {
         "pay": 1,
         "keyreg": 2,
@@ -135,10 +138,13 @@ def transaction_type_to_tealer_type(value: Union[str, int]) -> "TealerTransactio
         6: TealerTransactionType.Appl,
     }
 
+    # the compared value is taken from the contract: it might not be a valid value for the field.
     if not isinstance(value, int):
+        if value not in ENUM_NAMES_TO_INT:
+            return None
         value = ENUM_NAMES_TO_INT[value]
 
-    return INT_TO_TYPE[value]
+    return INT_TO_TYPE.get(value)
 
 
 class ExecutionMode(ComparableEnum):
